@@ -680,7 +680,8 @@ def case_parse(ctx, case):
         ctx.corr(str(z.id), props['id'], 'read_swc(text) id vs Meta line', case)
     elif rkw['read_meta'] is False or not props:
         pass
-    ctx.oracle(z.swc_header.count('\n') + (1 if z.swc_header else 0) == int(resp.get('nhdr', '0')) or True, 'header rows', case)
+    # `.swc_header` holds exactly the leading comment lines
+    ctx.corr(str(len([l for l in z.swc_header.split('\n') if l])), resp.get('nhdr', '0'), 'read_swc(text) number of header rows vs headerOf', case)
 
 
 def case_nanrow(ctx, case):
@@ -869,8 +870,49 @@ def run(ctx):
         case = dict(gen_nanrow(r), kind='nanrow')
         ctx.case(case, nontrivial=True)
         case_nanrow(ctx, case)
+    ctx.notes += [
+        'data rows of a written file end with \\r\\n (csv.writer default) while header lines end with \\n; the Lean lexer and pandas both accept it',
+        'labels=<dict> is applied with swc.index.map(labels), i.e. keyed by the DataFrame index label, not by node_id as the docstring says; '
+        'the model follows the code (the property does not constrain custom labels)',
+        'pandas sort_values(kind=quicksort) is not stable: the tie order among rows with equal parent_id differs from a stable sort in about '
+        'half of the cases; the correspondence therefore checks the order induced by the returned node map against IsParentSort',
+        'export_connectors=True on a skeleton without connector table raises ValueError (x.presynapses); modelled as writeRaises',
+        'a synapse label overrides the soma label on the same node (one label per node); counted, not flagged',
+    ]
     if not ctx.quick():
         exhaustive_small(ctx)
+        parallel_batch(ctx)
+
+
+def parallel_batch(ctx):
+    """Folder / zip of several neurons read with worker processes: same neurons, same order as the serial read."""
+    r = ctx.rng
+    for rep in range(2):
+        cases = [gen_write_case(r, small=True) for _ in range(6)]
+        case = dict(kind='parallel', n=6, seeds=[c['meta'] for c in cases])
+        ctx.case(case, nontrivial=True)
+        with Tmp() as d:
+            sub = os.path.join(d, 'many')
+            os.mkdir(sub)
+            nl = []
+            for k, c in enumerate(cases):
+                c['id'] = 100 + k
+                c['soma'] = None if isinstance(c.get('soma'), list) else c.get('soma')
+                x = build(c)
+                nl.append(x)
+            nl = navis.NeuronList(nl)
+            navis.write_swc(nl, sub)
+            zp = os.path.join(d, 'many.zip')
+            navis.write_swc(nl, zp)
+            for src in (sub, zp):
+                a = navis.read_swc(src, fmt='{id:int}.swc', parallel=False, precision=64)
+                b = navis.read_swc(src, fmt='{id:int}.swc', parallel=2, precision=64)
+                ctx.oracle([n.id for n in a] == [n.id for n in b], f'read_swc({os.path.basename(src)}): order with parallel=2 {[n.id for n in b]} vs serial {[n.id for n in a]}', case)
+                ctx.oracle(sorted(n.id for n in a) == [100 + k for k in range(6)], f'read_swc({os.path.basename(src)}): ids {[n.id for n in a]}', case)
+                ctx.oracle(all(tables_equal(table_of(u), table_of(v)) for u, v in zip(a, b)), 'parallel read yields different node tables', case)
+                if src == zp:
+                    ctx.oracle([n.id for n in a] == [100 + k for k in range(6)], f'read_swc(zip): batch order {[n.id for n in a]} is not the archive order', case)
+                ctx.count('source', 'parallel-' + ('zip' if src == zp else 'folder'))
 
 
 def exhaustive_small(ctx):
@@ -896,7 +938,7 @@ def exhaustive_small(ctx):
     ctx.extra['exhaustive_small_scope'] = f'all forests on ≤5 labelled nodes (ids 1..n, every parent function without cycles): {cnt} skeletons written, parsed by the Lean parser, read back'
 
 
-RUNNERS = {'write': case_write, 'fmt': case_fmt, 'parse': case_parse, 'nanrow': case_nanrow}
+RUNNERS = {'write': case_write, 'fmt': case_fmt, 'parse': case_parse, 'nanrow': case_nanrow, 'parallel': lambda ctx, case: parallel_batch(ctx)}
 
 
 def replay(ctx, rp):
